@@ -5,12 +5,12 @@
 EXTENDS Integers, Sequences, TLC
 
 
-S0 == [m |-> "init", d |-> "top", refs |-> 3, flag |-> FALSE, handler |-> FALSE, sig |-> FALSE, bound |-> FALSE,
+S0 == [m |-> "init", d |-> "top", refs |-> 3, flag |-> FALSE, handler |-> FALSE, sig |-> FALSE, inv |-> FALSE, bound |-> FALSE,
        exit |-> -1, mach |-> "none"]
 
 (* ------------------------------ main thread ------------------------------ *)
 MInit(s)     == [s EXCEPT !.m = "serve"]                               \* LSP initialize handshake done
-MShutdown(s) == [s EXCEPT !.m = "wait_exit", !.sig = s.handler, !.handler = FALSE]   \* handlers invoked (and taken), reply sent
+MShutdown(s) == [s EXCEPT !.m = "wait_exit", !.sig = s.handler, !.handler = FALSE, !.inv = TRUE]   \* handlers invoked (and taken), reply sent
 (* invoke_shutdown_handlers sends on a channel of capacity 1 per handler (mos/src/lsp/mod.rs add_shutdown_handler): the send  *)
 (* never waits for the session thread. With capacity 0 (hypothetical deviation "RendezvousSignal") it is a rendezvous: the   *)
 (* main thread can only complete `shutdown` while the session thread sits in its select loop.                                *)
@@ -21,8 +21,12 @@ MErr(s)      == [s EXCEPT !.m = "done", !.exit = 1]                    \* stdin 
 MUnwrap(s, dev) == IF s.refs > 1 /\ "UnwrapSharedContext" \in dev
                    THEN [s EXCEPT !.m = "panicked", !.exit = 101]      \* main thread panics: the process ends with status 101
                    ELSE [s EXCEPT !.m = "io"]                          \* IO threads joined
-MSetFlag(s)  == [s EXCEPT !.m = "join_dbg", !.flag = TRUE]
-MJoinEn(s)   == s.m = "join_dbg" /\ s.d \in {"ended", "dead"}
+(* DebugServer::join. As written: set the flag, wait for the thread. Repaired ("SessionIgnoresFlag" off): the handlers are  *)
+(* invoked here as well (the LSP may have ended without `shutdown`), and a handler registered after an invocation is told  *)
+(* at once (DReg). Repaired ("UnboundedJoin" off): the wait is bounded, a thread that does not end is left behind.    *)
+MSetFlag(s, dev) == IF "SessionIgnoresFlag" \in dev THEN [s EXCEPT !.m = "join_dbg", !.flag = TRUE]
+                    ELSE [s EXCEPT !.m = "join_dbg", !.flag = TRUE, !.sig = s.sig \/ s.handler, !.handler = FALSE, !.inv = TRUE]
+MJoinEn(s, dev) == s.m = "join_dbg" /\ (s.d \in {"ended", "dead"} \/ "UnboundedJoin" \notin dev)
 MJoin(s)     == IF s.d = "dead" THEN [s EXCEPT !.m = "panicked", !.exit = 101]     \* join().expect(..) on a panicked thread
                 ELSE [s EXCEPT !.m = "done", !.exit = 0]
 
@@ -32,7 +36,8 @@ DTop(s)     == IF s.flag THEN [s EXCEPT !.d = "ended"] ELSE [s EXCEPT !.d = "new
 DBind(s)    == [s EXCEPT !.d = "accept", !.bound = TRUE]               \* TcpListener::bind, then blocked in accept()
 DAccept(s)  == [s EXCEPT !.d = "accepted", !.bound = FALSE]            \* a client connected; the listener is dropped
 DRegEn(s)   == s.d = "accepted" /\ s.m # "wait_exit"                   \* needs the context lock, which handle_message holds while waiting for exit
-DReg(s)     == [s EXCEPT !.d = "session", !.handler = TRUE]
+DReg(s, dev) == IF s.inv /\ "SessionIgnoresFlag" \notin dev THEN [s EXCEPT !.d = "session", !.handler = TRUE, !.sig = TRUE]
+                ELSE [s EXCEPT !.d = "session", !.handler = TRUE]
 DEndSess(s) == [s EXCEPT !.d = "ending", !.handler = FALSE, !.sig = FALSE]
 (* the session's select loop is told to shut down. As written (mos/src/debugger/mod.rs:834-837) the branch leaves the *)
 (* loop without completing the selected receive: crossbeam panics ("dropped SelectedOperation without completing     *)
@@ -41,11 +46,9 @@ DSig(s, dev) == IF "SignalPanicsDebugThread" \in dev
                 THEN [s EXCEPT !.d = "dead", !.refs = @ - 2, !.handler = FALSE, !.sig = FALSE]
                 ELSE DEndSess(s)
 DDrop(s)    == [s EXCEPT !.d = "top", !.refs = @ - 1]
-DWake(s)    == [s EXCEPT !.d = "ending", !.bound = FALSE]              \* repair only: accept woken by the flag
 (* fifth session state: the session thread is busy inside a request that does not return (DAP `next` over a call to a        *)
 (* subroutine that never returns: TestRunner::step_over loops on the session thread, holding the adapter and runner locks).  *)
 (* It is not in its select loop: it neither sees the shutdown signal nor notices its client going away.                      *)
 DBusy(s)     == [s EXCEPT !.d = "busy", !.mach = "stepping"]
-DBusyWake(s) == [s EXCEPT !.d = "ending", !.handler = FALSE, !.sig = FALSE]   \* repair only: the step loop polls the flag
 
 ================================================================================
